@@ -5,6 +5,9 @@ pub fn generate2(prop: &str, tier: &str, rng: &mut Rng, w: &mut dyn Write) {
     match prop {
         "C01" | "C07" => gen_eval(prop, tier, rng, w),
         "C03" => gen_showdown(tier, rng, w),
+        "C02" => gen_iter_c02(tier, rng, w),
+        "C04" => gen_iter_c04(tier, rng, w),
+        "C08" => gen_iter_c08(tier, rng, w),
         _ => {
             eprintln!("harness: no generator for {}", prop);
             std::process::exit(2);
@@ -301,4 +304,283 @@ fn gen_showdown(tier: &str, rng: &mut Rng, w: &mut dyn Write) {
             }
         }
     }
+}
+
+// ------------------------------------------------------------------------------------------ iterator requests
+use espada::hand_range::{CardPair, HandRange};
+
+pub const W_PALETTE: [u32; 8] = [0x3F800000, 0x3F000000, 0x3DCCCCCD, 0x3E800000, 0x3E99999A, 0x3F7FFFFF, 0x00000001, 0];
+
+/// entries (combo code, weight bits) listed in the order the map built from them iterates; None if no fixpoint
+pub fn stable_entries(mut es: Vec<(usize, u32)>) -> Option<Vec<(usize, u32)>> {
+    for _ in 0..6 {
+        let hr: HandRange = es.iter().map(|(c, w)| (pair_of(*c), f32::from_bits(*w))).collect();
+        let order: Vec<(usize, u32)> = hr.card_pairs().iter().map(|(k, v)| (pair_code(k), v.to_bits())).collect();
+        if order == es {
+            return Some(es);
+        }
+        es = order;
+    }
+    None
+}
+
+pub fn combo_code(a: usize, b: usize) -> usize {
+    if a < b { 52 * a + b } else { 52 * b + a }
+}
+
+pub fn all_combos() -> Vec<usize> {
+    let mut v = vec![];
+    for a in 0..52 {
+        for b in (a + 1)..52 {
+            v.push(52 * a + b);
+        }
+    }
+    v
+}
+
+/// a random range of `size` distinct combos, weights from the palette
+pub fn random_range(rng: &mut Rng, size: usize, uniform_weight: bool) -> Vec<(usize, u32)> {
+    let mut all = all_combos();
+    rng.shuffle(&mut all);
+    let w0 = W_PALETTE[rng.below(6) as usize];
+    all.truncate(size);
+    all.into_iter().map(|c| (c, if uniform_weight { w0 } else { W_PALETTE[rng.below(8) as usize] })).collect()
+}
+
+pub struct IterCase {
+    pub mode: &'static str,
+    pub nextra: usize,
+    pub flop: [usize; 3],
+    pub scope: Option<(usize, usize, usize, usize)>,
+    pub rescope: bool,
+    pub ranges: Vec<Vec<(usize, u32)>>,
+}
+
+pub fn emit_iter(w: &mut dyn Write, c: &IterCase) -> bool {
+    // entries are listed in INSERTION order; the harness reports the order in which the built map iterates
+    let rs: Vec<Vec<(usize, u32)>> = c.ranges.clone();
+    let (tf, rf, tt, rt) = c.scope.unwrap_or((0, 1, 48, 49));
+    let ss = if c.scope.is_none() { 0 } else if c.rescope { 2 } else { 1 };
+    let mut line = format!(
+        "iter 1 {} {} {} {} {} - - {} {} {} {} {} {}",
+        c.mode, c.nextra, c.flop[0], c.flop[1], c.flop[2], tf, rf, tt, rt, ss, rs.len()
+    );
+    for r in rs {
+        line.push_str(&format!(" {}", r.len()));
+        for (cc, wb) in r {
+            line.push_str(&format!(" {} {}", cc, wb));
+        }
+    }
+    writeln!(w, "{}", line).unwrap();
+    true
+}
+
+pub fn random_flop(rng: &mut Rng) -> [usize; 3] {
+    let f = rng.distinct(3, 52);
+    [f[0] as usize, f[1] as usize, f[2] as usize]
+}
+
+/// position with turn < river < 49, or the terminal (48, 49)
+pub fn random_pos(rng: &mut Rng) -> (usize, usize) {
+    match rng.below(10) {
+        0 => (48, 49),
+        1 => {
+            // row end
+            let t = rng.below(48) as usize;
+            (t, 48)
+        }
+        2 => {
+            let t = rng.below(48) as usize;
+            (t, t + 1)
+        }
+        _ => {
+            let t = rng.below(48) as usize;
+            let r = t + 1 + rng.below((48 - t) as u64) as usize;
+            (t, r)
+        }
+    }
+}
+
+pub fn gen_iter_c02(tier: &str, rng: &mut Rng, w: &mut dyn Write) {
+    let thorough = tier == "thorough";
+    // the D2 witness shape: two players sharing a card
+    emit_iter(w, &IterCase { mode: "digest", nextra: 1, flop: [49, 50, 51], scope: None, rescope: false,
+        ranges: vec![vec![(combo_code(0, 4), 0x3F800000)], vec![(combo_code(0, 8), 0x3F800000)]] });
+    // small cases, complete lists: 1..3 players, 1..4 combos each, overlaps likely (cards drawn from a small pool)
+    for i in 0..(if thorough { 1500 } else { 120 }) {
+        let flop = random_flop(rng);
+        let np = 1 + rng.below(3) as usize;
+        let psz = 8 + rng.below(10) as usize;
+        let pool: Vec<usize> = rng.distinct(psz, 52).into_iter().map(|x| x as usize).collect();
+        let mut ranges = vec![];
+        for _ in 0..np {
+            let k = 1 + rng.below(4) as usize;
+            let mut es: Vec<(usize, u32)> = vec![];
+            while es.len() < k {
+                let a = pool[rng.below(pool.len() as u64) as usize];
+                let b = pool[rng.below(pool.len() as u64) as usize];
+                if a == b {
+                    continue;
+                }
+                let c = combo_code(a, b);
+                if es.iter().any(|e| e.0 == c) {
+                    continue;
+                }
+                es.push((c, W_PALETTE[rng.below(8) as usize]));
+            }
+            // sometimes force a flop card into a combo
+            if rng.below(6) == 0 {
+                let other = pool[0];
+                if other != flop[0] {
+                    let c = combo_code(flop[0], other);
+                    if !es.iter().any(|e| e.0 == c) {
+                        es.push((c, 0x3F800000));
+                    }
+                }
+            }
+            ranges.push(es);
+        }
+        emit_iter(w, &IterCase { mode: if i % 4 == 0 { "full" } else { "digest" }, nextra: 2, flop, scope: None, rescope: false, ranges });
+    }
+    // medium: two or three players, 5..60 combos
+    for _ in 0..(if thorough { 300 } else { 10 }) {
+        let flop = random_flop(rng);
+        let np = 2 + rng.below(2) as usize;
+        let mut ranges = vec![];
+        for _ in 0..np {
+            let sz = if np == 2 { 3 + rng.below(12) as usize } else { 2 + rng.below(4) as usize };
+            ranges.push(random_range(rng, sz, false));
+        }
+        emit_iter(w, &IterCase { mode: "digest", nextra: 1, flop, scope: None, rescope: false, ranges });
+    }
+    // range-size boundaries of the (formerly u8) odometer: one wide player, a few rows of positions
+    for &size in &[255usize, 256, 257, 390, 1326] {
+        let flop = random_flop(rng);
+        emit_iter(w, &IterCase { mode: "digest", nextra: 1, flop, scope: Some((0, 1, 1, 10)), rescope: false, ranges: vec![random_range(rng, size, true)] });
+    }
+    for &size in &[256usize, 257, 300] {
+        let flop = random_flop(rng);
+        emit_iter(w, &IterCase { mode: "digest", nextra: 1, flop, scope: Some((0, 1, 0, 9)), rescope: false,
+            ranges: vec![random_range(rng, 2, true), random_range(rng, size, true)] });
+        let flop = random_flop(rng);
+        emit_iter(w, &IterCase { mode: "digest", nextra: 1, flop, scope: Some((47, 48, 48, 49)), rescope: false,
+            ranges: vec![random_range(rng, size, true), random_range(rng, 3, true)] });
+    }
+    // one unscoped wide run (model vs implementation only; the oracle would dominate the run time)
+    {
+        let flop = random_flop(rng);
+        emit_iter(w, &IterCase { mode: "digest-nospec", nextra: 1, flop, scope: None, rescope: false, ranges: vec![random_range(rng, 300, true)] });
+    }
+    if thorough {
+        let flop = random_flop(rng);
+        emit_iter(w, &IterCase { mode: "digest", nextra: 1, flop, scope: None, rescope: false, ranges: vec![all_combos().into_iter().map(|c| (c, 0x3F800000)).collect()] });
+        // every flop with a fixed pair of small ranges
+        for a in 0..52 {
+            for b in (a + 1)..52 {
+                for c in (b + 1)..52 {
+                    emit_iter(w, &IterCase { mode: "digest", nextra: 0, flop: [a, b, c], scope: Some((0, 1, 1, 2)), rescope: false,
+                        ranges: vec![vec![(combo_code(0, 5), 0x3F800000), (combo_code(1, 6), 0x3F000000)], vec![(combo_code(20, 30), 0x3F800000), (combo_code(0, 30), 0x3E800000)]] });
+                }
+            }
+        }
+    }
+    // no players; one player with an empty range
+    emit_iter(w, &IterCase { mode: "digest", nextra: 1, flop: [0, 1, 2], scope: None, rescope: false, ranges: vec![] });
+    emit_iter(w, &IterCase { mode: "digest", nextra: 1, flop: [0, 1, 2], scope: None, rescope: false, ranges: vec![vec![], vec![(combo_code(10, 20), 0x3F800000)]] });
+}
+
+pub fn gen_iter_c04(tier: &str, rng: &mut Rng, w: &mut dyn Write) {
+    let thorough = tier == "thorough";
+    let n = if thorough { 6000 } else { 400 };
+    for i in 0..n {
+        let flop = random_flop(rng);
+        let (mut a, mut b) = (random_pos(rng), random_pos(rng));
+        if b < a {
+            std::mem::swap(&mut a, &mut b);
+        }
+        let np = 1 + rng.below(2) as usize;
+        let mut ranges = vec![];
+        for _ in 0..np {
+            let sz = 1 + rng.below(if i % 10 == 0 { 12 } else { 4 }) as usize;
+            ranges.push(random_range(rng, sz, false));
+        }
+        emit_iter(w, &IterCase { mode: if i % 5 == 0 { "full" } else { "digest" }, nextra: 3, flop, scope: Some((a.0, a.1, b.0, b.1)), rescope: i % 7 == 0, ranges });
+    }
+    // chains: consecutive scopes cut at seeded positions (each piece is compared with the specification's piece)
+    for _ in 0..(if thorough { 300 } else { 25 }) {
+        let flop = random_flop(rng);
+        let k = 1 + rng.below(8) as usize;
+        let mut cuts: Vec<(usize, usize)> = (0..k).map(|_| random_pos(rng)).collect();
+        cuts.push((0, 1));
+        cuts.push((48, 49));
+        cuts.sort();
+        let ranges: Vec<Vec<(usize, u32)>> = vec![random_range(rng, 3, false), random_range(rng, 2, false)];
+        for j in 0..cuts.len() - 1 {
+            emit_iter(w, &IterCase { mode: "digest", nextra: 1, flop, scope: Some((cuts[j].0, cuts[j].1, cuts[j + 1].0, cuts[j + 1].1)), rescope: false, ranges: ranges.clone() });
+        }
+    }
+    // every start at the first/last positions of each row against a fixed end, and every end against a fixed start
+    let ranges: Vec<Vec<(usize, u32)>> = vec![vec![(combo_code(3, 17), 0x3F800000), (combo_code(4, 40), 0x3F000000)]];
+    for t in 0..48 {
+        for &r in &[t + 1, 48] {
+            emit_iter(w, &IterCase { mode: "digest", nextra: 1, flop: [0, 21, 42], scope: Some((t, r, 48, 49)), rescope: false, ranges: ranges.clone() });
+            emit_iter(w, &IterCase { mode: "digest", nextra: 1, flop: [0, 21, 42], scope: Some((0, 1, t, r)), rescope: false, ranges: ranges.clone() });
+        }
+    }
+}
+
+/// all combos `high-kicker` offsuit for every kicker below `high` (the token `X2o+`)
+fn offsuit_plus(high: usize) -> Vec<usize> {
+    let mut v = vec![];
+    for k in (high + 1)..13 {
+        for s1 in 0..4 {
+            for s2 in 0..4 {
+                if s1 != s2 {
+                    v.push(combo_code(high * 4 + s1, k * 4 + s2));
+                }
+            }
+        }
+    }
+    v
+}
+
+/// C08: termination / no panic / bounded stack.  Every request is drained (a) in-process through the normal
+/// correspondence and (b) by `drain2m` child processes on a 2 MiB stack in the debug and the release build.
+pub fn gen_iter_c08(tier: &str, rng: &mut Rng, w: &mut dyn Write) {
+    let thorough = tier == "thorough";
+    let one = 0x3F800000u32;
+    let flop = [49usize, 50, 51]; // 2h 2d 2c: the deck starts with As
+    // range sizes around the old u8 limit and the extremes
+    for &size in &[0usize, 1, 2, 255, 256, 257, 512, 1326] {
+        let r: Vec<(usize, u32)> = if size == 1326 { all_combos().into_iter().map(|c| (c, one)).collect() } else { random_range(rng, size, true) };
+        let scope = if thorough || size <= 257 { None } else { Some((0, 1, 3, 4)) };
+        emit_iter(w, &IterCase { mode: "digest-nospec", nextra: 2, flop, scope, rescope: false, ranges: vec![r] });
+    }
+    // an empty range beside a non-empty one, in both player orders
+    emit_iter(w, &IterCase { mode: "digest-nospec", nextra: 2, flop, scope: None, rescope: false, ranges: vec![vec![], vec![(combo_code(0, 4), one)]] });
+    emit_iter(w, &IterCase { mode: "digest-nospec", nextra: 2, flop, scope: None, rescope: false, ranges: vec![vec![(combo_code(0, 4), one)], vec![]] });
+    // longest runs of consecutive blocked deals: a one-combo player holding the first deck card (As) beside wide ranges:
+    // while the turn is As every deal of the row is blocked
+    let wide: Vec<(usize, u32)> = { let mut v = offsuit_plus(0); v.extend(offsuit_plus(1)); v.extend(offsuit_plus(2)); v.into_iter().map(|c| (c, one)).collect() };
+    emit_iter(w, &IterCase { mode: "digest-nospec", nextra: 1, flop, scope: if thorough { None } else { Some((0, 1, 1, 2)) }, rescope: false,
+        ranges: vec![vec![(combo_code(0, 4), one)], wide.clone()] });
+    emit_iter(w, &IterCase { mode: "digest-nospec", nextra: 1, flop, scope: Some((0, 1, 0, 30)), rescope: false,
+        ranges: vec![all_combos().into_iter().map(|c| (c, one)).collect(), vec![(combo_code(0, 4), one)]] });
+    // a blocked run that ends the enumeration (the last rows hold the blocked card): flop of aces, player holds deuces
+    emit_iter(w, &IterCase { mode: "digest-nospec", nextra: 1, flop: [0, 1, 2], scope: Some((46, 47, 48, 49)), rescope: false,
+        ranges: vec![vec![(combo_code(50, 51), one)], wide.clone()] });
+    // everything blocked: both players hold the same single combo
+    emit_iter(w, &IterCase { mode: "digest-nospec", nextra: 1, flop, scope: None, rescope: false,
+        ranges: vec![vec![(combo_code(0, 4), one)], vec![(combo_code(0, 4), one)]] });
+    // three players, mostly blocked by each other (drawn from 9 cards)
+    let pool: Vec<usize> = rng.distinct(9, 49).into_iter().map(|x| x as usize).collect();
+    let mut small = vec![];
+    for i in 0..pool.len() {
+        for j in (i + 1)..pool.len() {
+            small.push((combo_code(pool[i], pool[j]), one));
+        }
+    }
+    let k = if thorough { 36 } else { 14 };
+    emit_iter(w, &IterCase { mode: "digest-nospec", nextra: 1, flop, scope: None, rescope: false,
+        ranges: vec![small[..k].to_vec(), small[..k].to_vec(), small[..k].to_vec()] });
 }
